@@ -588,8 +588,12 @@ class Interp:
             # a generator is evaluated eagerly: the list of the values it yields, in order
             fr.locals["$yields"] = ListV([])
         self.run.depth += 1
-        if self.run.depth > 250:
-            raise self.unsupported(f"call depth exceeded in {qn}", node, caller)
+        if self.run.depth > 150:
+            # unbounded recursion of the interpreted program (e.g. over a cyclic structure it built): Python itself
+            # ends this with RecursionError, which the program may catch or, normally, dies of - a loud failure
+            self.run.depth -= 1
+            self.run.event("recursion_error", func=qn)
+            self.raise_exc("RecursionError", [Str.lit("maximum recursion depth exceeded")], node, caller)
         self.run.event("enter", func=qn, node=node, frame=fr)
         try:
             try:
